@@ -62,6 +62,12 @@ def run_limited(cmd, cwd, env, log_path, timeout_s, mem_gb):
     with open(log_path, "wb") as log:
         p = subprocess.Popen(cmd, cwd=cwd, env=env, stdout=log, stderr=subprocess.STDOUT,
                              start_new_session=True)
+        # The job runs in its own process group (so that a timeout can kill cargo, kani-driver and cbmc together).
+        # If ./check itself is killed from outside, nobody would reap that group and its cbmc processes would keep
+        # the target directory locked for the next check: a watcher kills the group as soon as ./check is gone.
+        watcher = subprocess.Popen(["/bin/sh", "-c", "while kill -0 %d 2>/dev/null; do sleep 2; done; kill -9 -%d 2>/dev/null"
+                                    % (os.getpid(), p.pid)], start_new_session=True,
+                                   stdout=subprocess.DEVNULL, stderr=subprocess.DEVNULL)
         status = None
         while True:
             try:
@@ -82,6 +88,11 @@ def run_limited(cmd, cwd, env, log_path, timeout_s, mem_gb):
                     pass
                 p.wait()
                 break
+    try:
+        watcher.kill()
+        watcher.wait()
+    except Exception:
+        pass
     wall = time.time() - t0
     if status is None:
         status = "ok" if p.returncode == 0 else "exit:%d" % p.returncode
